@@ -219,6 +219,10 @@ package ecs
 //@ uf evtId(e EntityEvent) int
 //@ ghostglobal notifyCount map[ref]int
 //@ ghostglobal notifyLast map[ref]int
+// content digest of an event: like evtId, but the relation pointers are replaced by the IDs they point to (-1 for nil)
+//@ uf evtIdC(entity Entity, oldRel int, newRel int, added Mask, removed Mask, oldTarget Entity, types event.Subscription, addedIDs []ID, removedIDs []ID) int
+//@ pred relOf(p *ID) int = ite(p == nil, -1, int(p.id))
+//@ ghostglobal notifyLastC map[ref]int
 
 //@ iface Listener.Subscriptions(self) (r)
 //@   ensures r == lsSubs(self)
@@ -231,7 +235,8 @@ package ecs
 //@   requires (evt.EventTypes & event.EntityRemoved) == 0 ==> !isLocked(world)
 //@   ensures notifyCount[self.val] == old(notifyCount[self.val]) + 1
 //@   ensures notifyLast[self.val] == evtId(evt)
-//@   modifies notifyCount[self.val], notifyLast[self.val]
+//@   ensures notifyLastC[self.val] == evtIdC(evt.Entity, relOf(evt.OldRelation), relOf(evt.NewRelation), evt.Added, evt.Removed, evt.OldTarget, evt.EventTypes, evt.AddedIDs, evt.RemovedIDs)
+//@   modifies notifyCount[self.val], notifyLast[self.val], notifyLastC[self.val]
 
 // ---------------------------------------------------------------------------------------------
 // C09 — bit pool and lock mask
@@ -1294,7 +1299,7 @@ package ecs
 //@   ensures exchSelected(w, arch, oldMask, len(add), len(rem), oldTarget, oldRel) ==>
 //@      notifyLast[w.listener.val] == evtId(mk(EntityEvent, oldRel, exchNewRel(arch), add, rem, maskAndNot(arch.archetypeAccess.Mask, *oldMask), maskAndNot(*oldMask, arch.archetypeAccess.Mask), entity, oldTarget,
 //@           exchBits(arch, len(add), len(rem), oldTarget, oldRel)))
-//@   modifies notifyCount[w.listener.val], notifyLast[w.listener.val]
+//@   modifies notifyCount[w.listener.val], notifyLast[w.listener.val], notifyLastC[w.listener.val]
 
 //@ pred exchNewRel(arch *archetype) *ID = ite(arch.archetypeAccess.HasRelationComponent, &arch.archetypeAccess.RelationComponent, nil)
 //@ pred relDiffers(oldRel *ID, newRel *ID) bool = (oldRel == nil) != (newRel == nil) || (oldRel != nil && newRel != nil && oldRel.id != newRel.id)
@@ -1652,6 +1657,10 @@ package ecs
 //@   loop #1
 //@   inv (exists k int :: {rem[k]} 0 <= k && k < $i && specBit(w.registry.IsRelation, rem[k].id)) == false
 
+//@ pred nilIDs(a *archetype) []ID = ite(true, nil, a.node.nodeData.Ids)
+//@ pred setRelSelected(w *World, id uint8) bool =
+//@   (lsSubs(w.listener) & event.TargetChanged) != 0 && (lsComps(w.listener) == nil || (((lsSubs(w.listener) & event.TargetChanged) & event.Relations) != 0 && specBit(*lsComps(w.listener), id)))
+
 //@ func archNode.GetArchetype(a, target) (arch, ok)
 //@   flag trusted
 //@   ensures ok ==> arch != nil && arch.node == a && arch.archetypeData != nil && (a.HasRelation ==> arch.archetypeAccess.RelationTarget == target) && arch.archetypeData.index >= 0
@@ -1672,6 +1681,13 @@ package ecs
 //@   ensures old(w.entities[int(entity.id)].arch.archetypeAccess.RelationTarget) != target ==>
 //@        w.entities[int(entity.id)].arch.archetypeAccess.RelationTarget == target && w.entities[int(entity.id)].arch.node == old(w.entities[int(entity.id)].arch.node)
 //@   ensures old(w.entities[int(entity.id)].arch.archetypeAccess.RelationTarget) == target ==> w.entities[int(entity.id)].arch == old(w.entities[int(entity.id)].arch)
+// the target event (C11): nothing when the target is unchanged; otherwise exactly one Notify iff the rule selects a TargetChanged
+// event for the relation component, carrying the entity, the relation ID as old and new relation, the OLD target and no component parts
+//@   ensures[silent] w.listener != nil && old(w.entities[int(entity.id)].arch.archetypeAccess.RelationTarget) == target ==> notifyCount[w.listener.val] == old(notifyCount[w.listener.val])
+//@   ensures[count] w.listener != nil && old(w.entities[int(entity.id)].arch.archetypeAccess.RelationTarget) != target ==> notifyCount[w.listener.val] == old(notifyCount[w.listener.val]) + ite(setRelSelected(w, comp.id), 1, 0)
+//@   ensures[event] w.listener != nil && old(w.entities[int(entity.id)].arch.archetypeAccess.RelationTarget) != target && setRelSelected(w, comp.id) ==>
+//@      notifyLastC[w.listener.val] == evtIdC(entity, int(comp.id), int(comp.id), zeroMaskV(), zeroMaskV(), old(w.entities[int(entity.id)].arch.archetypeAccess.RelationTarget), event.TargetChanged,
+//@           nilIDs(old(w.entities[int(entity.id)].arch)), nilIDs(old(w.entities[int(entity.id)].arch)))
 //@   loop #1
 //@   inv true
 
